@@ -15,6 +15,8 @@ import (
 	"strings"
 	"time"
 
+	"gorm.io/gorm"
+	"gorm.io/gorm/clause"
 	"gorm.io/gorm/schema"
 )
 
@@ -367,3 +369,30 @@ type (
 	Flag   bool
 	Ratio  float64
 )
+
+// ExprPoint is a customized data type in the documented GormValuerInterface style: it is
+// written through a SQL expression (GormValue) and read through Scan; stored as "x,y".
+type ExprPoint struct{ X, Y int32 }
+
+func (ExprPoint) GormDataType() string { return "string" }
+
+// GormValue implements gorm.Valuer.
+func (p ExprPoint) GormValue(ctx context.Context, db *gorm.DB) clause.Expr {
+	return clause.Expr{SQL: "(? || ',' || ?)", Vars: []interface{}{strconv.Itoa(int(p.X)), strconv.Itoa(int(p.Y))}}
+}
+
+func (p *ExprPoint) Scan(src interface{}) error {
+	s, ok := src.(string)
+	if b, isB := src.([]byte); isB {
+		s, ok = string(b), true
+	}
+	if !ok {
+		return fmt.Errorf("schemagen.ExprPoint: cannot scan %T", src)
+	}
+	q, err := parsePoint("(" + s + ")")
+	if err != nil {
+		return err
+	}
+	*p = ExprPoint{q.X, q.Y}
+	return nil
+}
